@@ -28,7 +28,7 @@ func TestC15Binary(t *testing.T) {
 	os.Setenv("VERIF_BINARY_RACE", "1")
 	p := startPool(t)
 	defer p.stop()
-	rapid.Check(t, func(rt *rapid.T) {
+	check(t, func(rt *rapid.T) {
 		var hist []string
 		fail := func(f string, a ...interface{}) {
 			rt.Fatalf("%s\nframes so far:\n  %s\npool log tail:\n%s", fmt.Sprintf(f, a...), strings.Join(hist, "\n  "), tailLines(p.log(), 25))
